@@ -117,7 +117,7 @@ class C16(Engine):
     def setup(self):
         q = self.tier == "quick"
         self.pools = Pools(self.seed, n_gen=30 if q else 250, n_viol=60 if q else 400, n_cut=14 if q else 250,
-                           corpus_limit=None, tag="c16")
+                           corpus_limit=None, tag="c16", depth_family=True)
         self.pools.register()
 
     def prepare(self):
@@ -270,6 +270,14 @@ class C16(Engine):
                 vs.append(Violation(self.prop, "C16.a-same-findings",
                                     f"variant {self.vec_kind(v)} ends {o_var.get('end')} {o_var.get('exc') or ''} where the reference reaches a verdict",
                                     {"site": core.site_key(o_var.get("site")), "file": f["name"], "variant_argv": short_argv(argv)}))
+            return vs
+        if a is not None and b is None and v["dbg"] == sc["ref"]["dbg"] and o_var.get("end") == "exit":
+            # same debug level as the reference, which reaches a verdict: no other option (nor the input channel) may turn the
+            # file into a fatally unparsable one. (Across debug levels the statement excludes such pairs.)
+            only_channel = [k for k in ("nocol", "fmt", "o", "Rkind", "inline") if v[k] != sc["ref"][k]] == ["inline"]
+            vs.append(Violation(self.prop, "C16.c-inline-equals-file" if only_channel else "C16.a-same-findings",
+                                "the variant ends with a fatal diagnostic where the reference run reaches a verdict",
+                                {"file": f["name"], "variant_argv": short_argv(argv), "stdout_head": strip_ansi(o_var.get("stdout", ""))[:120]}))
             return vs
         if a is None or b is None:
             return vs
